@@ -8,7 +8,6 @@ from props import PROPS
 NA = {
  'C02': 'quantifies over all IDL programs; the subject is Rust text emitted by format! templates in pilota-build, which no function-level contract can give a meaning to and neither Verus nor Kani can ingest (Kani on a 2-field generated struct did not finish in 10 min); the runtime calls it relies on are proved under C01/C04/C07',
  'C08': 'entirely about emitted decode bodies under all writer schemas (programs x programs): same reason as C02',
- 'C12': 'not decided in this revision: the async readers need tokio AsyncReadExt under an assumed delivery-order contract (A7) and the async-to-sync extraction rule D8, which was designed but not built; the shared defects found on the sync side (compact read_struct_end, field-id overflow) were fixed in the async twins by the same commits',
  'C13': 'the mechanism (__pilota_begin_ptr/__pilota_offset/__pilota_fields_num) lives in emitted code: same reason as C02',
  'C14': 'oracle is rustc type-checking emitted text for all IDL programs and builder configurations: not a function contract',
  'C15': 'nom combinator closures over &str: Verus has no str byte reasoning nor higher-order parser combinators; needs a grammar-level inverse, not a per-function contract',
@@ -36,6 +35,8 @@ TEXT = {
          'skip_field, merge_loop, bytes/string/message/group/map merge, wrappers in types.rs and generated merge_field are not decided.'),
  'C11': ('Complete Kani harnesses, one per primitive, on the real unchecked writer (BytesMut variant) and reader: exact-size window between guard bytes, symbolic cursor; bytes written == Thrift binary encoding (the spec the checked writer is verified against), reported length == bytes written == cursor advance, nothing outside the window touched; reader values == binary decoding, cursor advanced by the exact size.',
          'LinkedBytes variant with zero-copy insertion, header readers, length-prefixed readers, get_bytes and the iterative skipper are not under a harness.'),
+ 'C12': ('The async readers of the binary, little-endian binary and compact protocols are extracted (rule D8: async fn -> fn, awaited tokio reads as atomic calls with the delivery contract of tokio) and verified by Verus against the same spec functions and the same contract text as the in-memory readers, so both refine one decoding relation: same value on success, Err exactly when the in-memory reader errs, consumption == length of the decoded value (never reads past it).',
+         'The delivery-schedule quantifier is removed by assumption A7 (tokio AsyncReadExt returns the next bytes in order regardless of chunking/Pending), not proved. The async skipper and generated decode_async are not covered. Known finding G8b (allocation of the declared length) is reported on every run.'),
  'C18': ('The scalar harnesses of C05 merge into an arbitrary pre-existing value: the result is the decoded value for every old value (last occurrence wins), for all 13 scalar kinds.',
          'Repeated, map, oneof, embedded-message and unknown-field semantics, and Message::merge, are not decided.'),
 }
